@@ -612,28 +612,107 @@ def caught_exceptions(f=None):
     return names
 
 
+# ---- alleged-prefix handling of from_string: LEARNED from the real function, not read from its source ------------------
+# For every sequence T of up to MAX_TOK leading tokens ("ro." / "imm.") and both values of deep_immutable the real from_string is run
+# on T + <sample cap> with the sample class's compiled regex wrapped: the subject handed to the regex shows how many bytes were
+# stripped; a write cap / a mutable read cap as body shows the can_be_writeable / can_be_mutable flags in force.  Independent of how
+# the stripping is written (if/elif, helper function, loop).  Assumption: behaviour depends on the leading token sequence only, and
+# sequences longer than MAX_TOK behave like their first MAX_TOK tokens.
+MAX_TOK = 3
+_PREFIX_TABLE = None
+
+
+def tokens():
+    return [uri.ALLEGED_READONLY_PREFIX, uri.ALLEGED_IMMUTABLE_PREFIX]
+
+
+def leading_tokens(u):
+    out = []
+    rest = u
+    while len(out) < MAX_TOK:
+        for t in (uri.ALLEGED_IMMUTABLE_PREFIX, uri.ALLEGED_READONLY_PREFIX):
+            if rest.startswith(t):
+                out.append(t)
+                rest = rest[len(t):]
+                break
+        else:
+            break
+    return tuple(out), rest
+
+
+def _observe_strip(u, deep):
+    """bytes the real from_string removed in front of a CHK body (None: the CHK regex was never consulted)"""
+    log = []
+    real = uri.CHKFileURI.STRING_RE
+    uri.CHKFileURI.STRING_RE = _PatSpy(real, log)
+    try:
+        try:
+            uri.from_string(u, deep_immutable=deep)
+        except Exception:
+            pass
+    finally:
+        uri.CHKFileURI.STRING_RE = real
+    if len(log) != 1:
+        return None
+    subject = log[0][1]
+    if not isinstance(subject, bytes) or not u.endswith(subject):
+        return None
+    return len(u) - len(subject)
+
+
+def prefix_table():
+    """{(token sequence, deep_immutable): (number of tokens stripped or None, can_be_writeable, can_be_mutable)}"""
+    global _PREFIX_TABLE
+    if _PREFIX_TABLE is not None:
+        return _PREFIX_TABLE
+    import itertools
+    k16, h32 = bytes(range(1, 17)), bytes(range(200, 232))
+    chk = uri.CHKFileURI(k16, h32, 3, 10, 1234).to_string()
+    ssk = uri.WriteableSSKFileURI(k16, h32).to_string()
+    ssk_ro = uri.ReadonlySSKFileURI(k16, h32).to_string()
+    table = {}
+    for deep in (False, True):
+        for n in range(MAX_TOK + 1):
+            for T in itertools.product(tokens(), repeat=n):
+                P = b"".join(T)
+                nb = _observe_strip(P + chk, deep)
+                k = None
+                if nb is not None:
+                    acc = 0
+                    for i in range(len(T) + 1):
+                        if acc == nb:
+                            k = i
+                            break
+                        if i < len(T):
+                            acc += len(T[i])
+                    if k is None:
+                        raise hlib.HarnessError("from_string strips %d bytes of %r: not a whole number of prefix tokens" % (nb, P))
+                cw = isinstance(uri.from_string(P + ssk, deep_immutable=deep), uri.WriteableSSKFileURI)
+                cm = isinstance(uri.from_string(P + ssk_ro, deep_immutable=deep), uri.ReadonlySSKFileURI)
+                table[(T, deep)] = (k, cw, cm)
+    _PREFIX_TABLE = table
+    return table
+
+
 def context_flags(prefix, deep_immutable):
-    """(can_be_writeable, can_be_mutable) — hand model of the first lines of from_string (validated on the corpus)."""
-    cw = cm = not deep_immutable
-    if prefix == "imm":
-        cw = cm = False
-    elif prefix == "ro":
-        cw = False
+    """(can_be_writeable, can_be_mutable) in force for no prefix / "ro." / "imm." (learned table)"""
+    T = {None: (), "ro": (uri.ALLEGED_READONLY_PREFIX,), "imm": (uri.ALLEGED_IMMUTABLE_PREFIX,)}[prefix]
+    (k, cw, cm) = prefix_table()[(T, bool(deep_immutable))]
     return {"can_be_writeable": cw, "can_be_mutable": cm}
 
 
 def model_from_string(u, deep_immutable, models, chain):
     """Concrete evaluation of the extracted model (used only to validate it against the real function).
     Returns (class name | 'UnknownURI', error kind or None)."""
-    s = u
-    prefix = None
-    if s.startswith(uri.ALLEGED_IMMUTABLE_PREFIX):
-        prefix = "imm"
-        s = s[len(uri.ALLEGED_IMMUTABLE_PREFIX):]
-    elif s.startswith(uri.ALLEGED_READONLY_PREFIX):
-        prefix = "ro"
-        s = s[len(uri.ALLEGED_READONLY_PREFIX):]
-    fl = context_flags(prefix, deep_immutable)
+    T, rest = leading_tokens(u)
+    (k, cw, cm) = prefix_table()[(T, bool(deep_immutable))]
+    if k is None:
+        # what is left after stripping still starts with a prefix token: no chain entry can match
+        k = 0 if not T else None
+    if k is None:
+        return ("UnknownURI", None)
+    s = b"".join(T[k:]) + rest
+    fl = {"can_be_writeable": cw, "can_be_mutable": cm}
     for e in chain:
         if not s.startswith(e.prefix):
             continue
@@ -668,6 +747,8 @@ def dispatch_index(s, chain, flags=None):
 # ---- assembling + validation -------------------------------------------------------------------
 
 def build():
+    global _PREFIX_TABLE
+    _PREFIX_TABLE = None
     del PREPROCESSED[:]
     files = {}
     for c in file_classes():
@@ -783,6 +864,9 @@ def corpus():
         add(b"ro." + b)
         add(b"imm." + b)
         add(b"ro.imm." + b)
+        add(b"imm.ro." + b)
+        add(b"ro.ro." + b)
+        add(b"imm.imm.ro." + b)
         add(b.upper())
         add(b.replace(b":3:", b":03:"))
         add(b.replace(b":10:", b":010:"))
